@@ -5,7 +5,7 @@ func init() {
 		e.rep.Rule = "cases = (converter, method, arguments): converters whose extend function (taking a struct, int or string; optionally a context argument, the converter itself, an error result) must be used for its pair at every position: direct, behind pointers, in slices, maps, nested structs and slices of pointers to structs, with 0-1 context parameters in either argument position and all three error-wrapping modes; every custom function stamps its identity and its arguments into its result, so the executed result shows which function ran with which arguments; compared with Gv.Gen + Gv.Eval. non-trivial = every call; distinct = (converter, method, arguments)"
 		b, per := 2, 25
 		if e.thorough {
-			b, per = 10, 40
+			b, per = 10*e.scale, 40
 		}
 		if err := runFamilies(e, "C06", "extend", famExtend, b, per, 6, nil, nil); err != nil {
 			return err
